@@ -648,7 +648,7 @@ def _flag_sites(ctx, psn, pname, params, w, flags):
 def rule_labels(ctx):
     ix = ctx.index
     r = Rule('C37-LBL', 'label slots saved by setup_parallel_control_flow_block are restored slot-for-slot by restore_labels, and every '
-             'generate_execution_code runs setup -> body -> trap -> (label usage reads) -> restore -> else clause / end block in that order', floor=9)
+             'generate_execution_code runs setup -> body -> trap -> (label usage reads) -> restore -> else clause / end block in that order', floor=10)
     psn = ix.cls('Nodes', 'ParallelStatNode')
     rel = psn.module.rel
     _, setup = method(ix, psn, 'setup_parallel_control_flow_block')
@@ -931,7 +931,7 @@ def check_handoff(ev, op_re, exc_names, guard_required):
 def rule_handoff(ctx):
     ix = ctx.index
     r = Rule('C37-EXC', 'fetch_parallel_exception / restore_parallel_exception: C block, GIL and free-threading lock brackets balance; the exception '
-             'transfer and the shared-slot test happen inside GIL + lock; first-exception-wins guard; gotref/giveref and position info are mirror images', floor=10)
+             'transfer and the shared-slot test happen inside GIL + lock; first-exception-wins guard; gotref/giveref and position info are mirror images', floor=11)
     psn = ix.cls('Nodes', 'ParallelStatNode')
     rel = psn.module.rel
     naming = naming_values(ctx)
@@ -1106,7 +1106,7 @@ SEQUENTIAL_SAFE = {'+', '-', '*', '&', '|', '^'}      # in-place operators whose
 
 def rule_reductions(ctx):
     ix = ctx.index
-    r = Rule('C37-RED', 'in-place operators that ParallelRangeNode turns into `reduction(op:var)` clauses are implicitly declared OpenMP reduction identifiers', floor=4)
+    r = Rule('C37-RED', 'in-place operators that ParallelRangeNode turns into `reduction(op:var)` clauses are implicitly declared OpenMP reduction identifiers', floor=5)
     prn = ix.cls('Nodes', 'ParallelRangeNode')
     found = 0
     for cls in [prn] + ix.subclasses(prn):
